@@ -8,6 +8,9 @@ import Sigverif.Model.Mask
 import Sigverif.Model.Bind
 import Sigverif.Model.Modifiers
 import Sigverif.Model.Support
+import Sigverif.Model.Eq
+import Sigverif.Model.Cleanup
+import Sigverif.Model.Cache
 namespace SV.Proto
 
 def splitNE (s : String) (sep : String) : List String :=
@@ -140,6 +143,36 @@ def lexLt : List Nat → List Nat → Bool
   | _ :: _, [] => false
   | a :: as, b :: bs => a < b || (a = b && lexLt as bs)
 
+def parseObj (s : String) : Option Obj :=
+  match s.splitOn "." with
+  | ["U", i, d, u] => do some (.usig (← i.toNat?) (← d.toNat?) (← u.toNat?))
+  | ["S", i, d] => do some (.psig (← i.toNat?) (← d.toNat?))
+  | ["u", i, d, u] => do some (.uparam (← i.toNat?) (← d.toNat?) (← u.toNat?))
+  | ["p", i, d] => do some (.pparam (← i.toNat?) (← d.toNat?))
+  | ["O", i] => do some (.other (← i.toNat?))
+  | _ => none
+
+def showBoolRes : Except Err Bool → String
+  | .ok b => "ok " ++ toString b
+  | .error e => "err " ++ showErr e
+
+def parseStoreOpt (s : String) : Option (Option Nat) := optNat s
+
+def showStore (s : Store) : String :=
+  s!"{showOpt s.instW} {showOpt s.instS} {showOpt s.clsW} {showOpt s.clsS}"
+
+def parseCOp (s : String) : Option COp :=
+  match s.splitOn ":" with
+  | ["get", i] => i.toNat?.map .get
+  | ["call", i] => i.toNat?.map .call
+  | ["dropw", i] => i.toNat?.map .dropWrapper
+  | ["dropi", i] => i.toNat?.map .dropInst
+  | ["new", i] => i.toNat?.map .newInst
+  | ["gc"] => some .gc
+  | _ => none
+
+def sortNats (l : List Nat) : List Nat := (l.toArray.qsort (· < ·)).toList
+
 /-- one request line → one answer line -/
 def handle (line : String) : String :=
   let toks := (line.splitOn " ").filter (· ≠ "")
@@ -213,6 +246,27 @@ def handle (line : String) : String :=
       some (match annotate (← parseParams p) (← parsePairs an ".") with
         | .ok ps => "ok " ++ showParams ps
         | .error e => "err " ++ showErr e)
+    | "pyeq" :: a :: b :: [] => do some (showBoolRes (pyEq (← parseObj a) (← parseObj b)))
+    | "pyne" :: a :: b :: [] => do some (showBoolRes (pyNe (← parseObj a) (← parseObj b)))
+    | "hasheq" :: a :: b :: [] => do
+      some (match pyHash (← parseObj a), pyHash (← parseObj b) with
+        | some x, some y => "ok " ++ toString (x == y)
+        | _, _ => "unhashable")
+    | "cleanup" :: f :: iw :: is_ :: cw :: cs :: [] => do
+      let st : Store := { instW := ← optNat iw, instS := ← optNat is_, clsW := ← optNat cw, clsS := ← optNat cs }
+      let o := cleanupRun (← optNat f) st
+      some s!"ok {showStore o.store} {o.raised} {o.calls}"
+    | "threads" :: n :: iw :: is_ :: cw :: cs :: sched :: [] => do
+      let st : Store := { instW := ← optNat iw, instS := ← optNat is_, clsW := ← optNat cw, clsS := ← optNat cs }
+      let w := (World.init st (← n.toNat?)).run (← parseNats sched ".")
+      let saw := w.threads.map (fun t => match t.sawWrapped with | none => "-" | some b => toString b)
+      let dn := w.threads.all (fun t => t.pc == .done)
+      some s!"ok {showStore w.store} {dn} {",".intercalate saw}"
+    | "cache" :: k :: ops :: [] => do
+      let kind ← (if k = "weakKey" then some DictKind.weakKey else if k = "weakValue" then some DictKind.weakValue else none)
+      let os ← (splitNE ops ",").mapM parseCOp
+      let st := (crun kind os).collect kind
+      some s!"ok {showNatList (sortNats (st.alive kind).eraseDups)}"
     | "makeup" :: ex :: p :: [] => do
       let cs := makeUpCallsigs (← parseParams p) (← parseNats ex ".")
       let strs := cs.map (fun c => s!"{showNatList c.1}|{showNatList ((c.2.toArray.qsort (· < ·)).toList)}")
